@@ -38,7 +38,7 @@ UNITS2 = {
     # mlog.c: the file-scope log (its counter is a variable, its 256 lines live in memory at `log_line`), `va_arg` reads are inputs,
     # the formatter and the stream are the environment; mlog_dump's loop is unrolled 3 times
     'MlogSeq': (os.path.join(vlib.REPO, 'librfn/mlog.c'), ['vmlog', 'vmlog_nice', 'mlog_clear', 'get_line', 'mlog_get_line', 'mlog_dump'], 3,
-                {'externs': ['strdup_printf', 'fprintf'], 'inmem': ['_IO_FILE']}),
+                {'externs': ['strdup_printf', 'fprintf'], 'inmem': ['_IO_FILE'], 'recursive_loops': True}),
     # list.c: every structure (list_t, list_node_t, list_iterator_t) lives in the byte memory and is reached through pointer values;
     # the comparison callback of list_insert_sorted is a pure function (a function-valued parameter); the walks are recursive definitions
     'ListSeq': (os.path.join(vlib.REPO, 'librfn/list.c'),
